@@ -872,7 +872,12 @@ func (sc *SpecCtx) evalCall(e *ECall) (Val, error) {
 		if err != nil {
 			return Val{}, err
 		}
-		return Val{T: vc.bstrOf(sc.env, sc.term(v)), Ty: types.Typ[types.String], Sort: "Int"}, nil
+		bt := vc.bstrOf(sc.env, sc.term(v))
+		if sc.node != nil && !strings.Contains(bt, "!q") {
+			// the content identity of a window determines its length (per-term instance; bound variables excluded)
+			sc.node.assume(sEq(app("blen_", bt), app("s.len", sc.term(v))))
+		}
+		return Val{T: bt, Ty: types.Typ[types.String], Sort: "Int"}, nil
 	case "bcmp":
 		a, err := sc.eval(e.Args[0])
 		if err != nil {
